@@ -207,7 +207,7 @@ pub struct PredShape {
     pub nodes: usize,
     pub edges: usize,
     pub predicates: usize,
-    /// 0 valid signature, 1 one bit of the signature flipped, 2 recovery id out of range, 3 signature for another contract
+    /// 0 valid signature, 1 one bit of the signature flipped, 2 recovery id out of range, 3 signature for another contract, 4 high-S form
     pub sig: u8,
     pub bit: u16,
 }
@@ -259,6 +259,11 @@ fn oracle_pred(s: &PredShape, obs: &mut Obs) -> Result<(), Violation> {
             signed.signature.1 = 4 + (s.bit % 250) as u8;
             sig_ok = false;
         }
+        4 => {
+            // the high-S form of the valid signature: recoverable, must be accepted
+            signed.signature = crate::props::c19::high_s_twin(&signed.signature);
+            sig_ok = essential_sign::contract::recover(&signed).is_ok();
+        }
         3 => {
             let other = Contract {
                 predicates: contract.predicates.clone(),
@@ -285,7 +290,7 @@ fn pred_items(_t: Tier) -> Box<dyn Iterator<Item = PredShape>> {
     for n in AROUND(1000) {
         for e in AROUND(1000) {
             for p in AROUND(100) {
-                for sig in 0..4u8 {
+                for sig in 0..5u8 {
                     if sig != 0 && !(n == 1000 && e == 1000 || n == 1 && e == 1) {
                         continue;
                     }
